@@ -1043,6 +1043,10 @@ pub enum TwinKind {
     /// 1.1 - 2.4 s pass); the session uses a 2 s keep-alive, so PINGREQs may appear in the variant
     /// only (they are left out of the comparison)
     Stall,
+    /// C15 x C13: chosen program steps are cancelled at a write that stays pending; in the base
+    /// run (`false`) nothing of the packet was accepted before, in the variant (`true`) a proper
+    /// prefix was.  No continuation call: the next program step goes on.
+    FragCancel(bool),
 }
 
 /// Deterministic benign broker + fixed program; only the transport schedule differs between the
@@ -1062,6 +1066,12 @@ pub struct TwinDirector {
     cancels_left: u32,
     stalls_left: u32,
     stall_now: bool,
+    /// FragCancel: program indices whose call is cancelled at a pending write
+    cut_steps: Vec<usize>,
+    cut_taken: bool,
+    cut_pending: bool,
+    cut_done: bool,
+    cur_cuttable: bool,
 }
 
 impl TwinDirector {
@@ -1088,7 +1098,26 @@ impl TwinDirector {
             cancels_left: 6,
             stalls_left: 2,
             stall_now: false,
+            cut_steps: Vec::new(),
+            cut_taken: false,
+            cut_pending: false,
+            cut_done: false,
+            cur_cuttable: false,
         }
+    }
+
+    /// FragCancel: the same steps are cut in the base and in the variant run
+    pub fn with_cuts(mut self, seed: u64) -> Self {
+        let mut r = StdRng::seed_from_u64(seed ^ 0x5eed_c0de);
+        let mut idx = 0usize;
+        for step in self.program.iter() {
+            let cuttable = matches!(step, Step::Publish { qos: 1..=2, .. } | Step::Subscribe { .. } | Step::Unsubscribe { .. } | Step::Poll {});
+            if cuttable && self.cut_steps.len() < 6 && r.gen_bool(0.3) {
+                self.cut_steps.push(idx);
+            }
+            idx += 1;
+        }
+        self
     }
 
     fn tag_of(step: &Step) -> Vec<u8> {
@@ -1112,6 +1141,18 @@ impl Director for TwinDirector {
         }
         match self.kind {
             TwinKind::Base => IoDec::Ready(offered.len()),
+            TwinKind::FragCancel(variant) => {
+                if self.cur_cuttable && !self.cut_done && self.cut_steps.contains(&self.cur_index) {
+                    if variant && !self.cut_taken && offered.len() > 1 {
+                        self.cut_taken = true;
+                        return IoDec::Ready(self.inner.rng.gen_range(1..offered.len()));
+                    }
+                    self.cut_pending = true;
+                    self.inner.last_pending = 'w';
+                    return IoDec::Pending;
+                }
+                IoDec::Ready(offered.len())
+            }
             TwinKind::Cancel | TwinKind::Fragment | TwinKind::Stall => {
                 if self.kind == TwinKind::Stall && self.stalls_left > 0 && self.inner.consecutive_pend < 1
                     && self.inner.chance(0.2)
@@ -1188,6 +1229,11 @@ impl Director for TwinDirector {
             // nothing will ever arrive: end this wait (both runs of the pair do the same)
             return PendDec::Cancel;
         }
+        if self.cut_pending {
+            self.cut_pending = false;
+            self.cut_done = true;
+            return PendDec::Cancel;
+        }
         if self.stall_now {
             self.stall_now = false;
             self.stalls_left -= 1;
@@ -1246,6 +1292,10 @@ impl Director for TwinDirector {
                     self.next_index += 1;
                     self.cur_tag = Self::tag_of(&step);
                     self.cur_enqueued = false;
+                    self.cut_taken = false;
+                    self.cut_done = false;
+                    self.cur_cuttable = matches!(step, Step::Publish { qos: 1..=2, .. } | Step::Subscribe { .. }
+                        | Step::Unsubscribe { .. } | Step::Poll {});
                     step
                 }
                 None => return TopDec::End,
@@ -1436,7 +1486,13 @@ impl Director for AgedDirector {
 /// A random program for a twin pair: publishes / subscribes / unsubscribes, polls, and
 /// broker-initiated publishes injected at fixed places.
 pub fn twin_program(seed: u64, len: usize, rx: usize) -> Vec<Step> {
-    let mut d = RandomDirector::new(seed, Profile { w_disconnect: 0, w_recv: 0, ..Profile::default() }, rx, false);
+    twin_program_with(seed, len, rx, 2)
+}
+
+/// `w_pub0`: weight of QoS 0 publishes (they write directly to the transport: what a cancelled
+/// operation left half-written has to be finished first)
+pub fn twin_program_with(seed: u64, len: usize, rx: usize, w_pub0: u32) -> Vec<Step> {
+    let mut d = RandomDirector::new(seed, Profile { w_disconnect: 0, w_recv: 0, w_pub0, ..Profile::default() }, rx, false);
     d.broker.connected = true;
     let mut out = Vec::new();
     for _ in 0..len {
